@@ -125,6 +125,9 @@ let handle toks =
          res_line (T.write_field_header (n_of_int (int_of_string ty)) (z_of_shex id) e)
            (fun e2 -> hex_of_bytes (T.e_out e2) ^ " " ^ shex_of_z (match e2.T.e_lfid with [] -> Z0 | x :: _ -> x))
        | r -> enc_out r)
+  | ["wset"; ty; c] -> enc_out (T.write_set_begin (n_of_int (int_of_string ty)) (z_of_shex c) T.encoder_init)
+  | ["wuuid"; h] -> let bs = bytes_of_hex h in
+      if List.length bs = 16 then enc_out (T.write_uuid bs T.encoder_init) else enc_out (T.Ok T.encoder_init)
   | ["wlist"; ty; c] -> enc_out (T.write_list_begin (n_of_int (int_of_string ty)) (z_of_shex c) T.encoder_init)
   | ["wmap"; kt; vt; c] ->
       enc_out (T.write_map_begin (n_of_int (int_of_string kt)) (n_of_int (int_of_string vt)) (z_of_shex c) T.encoder_init)
@@ -135,6 +138,7 @@ let handle toks =
       enc_out (en k (b k (T.Ok T.encoder_init)))
   (* decoder primitives *)
   | op :: level :: last :: h :: rest when String.length op > 1 && op.[0] = 'r' && op.[1] <> 't' ->
+      let level = String.concat "" (String.split_on_char 'r' level) in      (* "1r": set up through init_reader, same state *)
       (match dec_setup (bytes_of_hex h) (int_of_string level) (z_of_shex last) with
        | T.Ok d ->
          (match op, rest with
@@ -158,6 +162,12 @@ let handle toks =
               string_of_int (int_of_n et) ^ " " ^ string_of_int (int_of_z c) ^ " " ^ pos_s d1)
           | "rmap", [] -> res_line (T.read_map_begin d) (fun (((kt, vt), c), d1) ->
               string_of_int (int_of_n kt) ^ " " ^ string_of_int (int_of_n vt) ^ " " ^ string_of_int (int_of_z c) ^ " " ^ pos_s d1)
+          | "rset", [] -> res_line (T.read_set_begin d) (fun ((et, c), d1) ->
+              string_of_int (int_of_n et) ^ " " ^ string_of_int (int_of_z c) ^ " " ^ pos_s d1)
+          | "ruuid", [] -> res_line (T.read_uuid d) (fun (v, d1) -> hex_of_bytes v ^ " " ^ pos_s d1)
+          | "rstr", [] -> res_line (T.read_string d) (fun (v, d1) -> hex_of_bytes v ^ " " ^ pos_s d1)
+          | "rskipf", [ty] -> res_line (T.skip_field (n_of_int (int_of_string ty)) d) (fun d1 ->
+              string_of_int (nat_len d1.T.d_lfid) ^ " " ^ pos_s d1)
           | "rskip", [ty] -> res_line (T.thrift_skip (n_of_int (int_of_string ty)) d) (fun d1 ->
               string_of_int (nat_len d1.T.d_lfid) ^ " " ^ pos_s d1)
           | _ -> "RUNNER-ERROR unknown-op")
